@@ -529,7 +529,8 @@ package decimal
 //@   ensures[special,C04] old(z.form) != finite ==> z.form == old(z.form) && z.acc == 0
 //@   ensures[valid,C08] valid(z)
 //@   ensures[rounded,C01,C02] prec != 0 && old(z.form) == finite && z.prec < old(z.prec) ==> rounded(z, old(V(z.mant)), old(len(z.mant)), old(z.exp), false)
-//@   ensures[exact,C01,C02] prec != 0 && old(z.form) == finite && z.prec >= old(z.prec) ==> z.acc == 0 && z.form == finite && z.exp == old(z.exp) && z.mant == old(z.mant)
+//@   ensures[exact,C01,C02] prec != 0 && old(z.form) == finite && z.prec >= old(z.prec) ==> z.acc == 0 && z.form == finite && z.exp == old(z.exp) && z.mant == old(z.mant) &&
+//@        V(z.mant) == old(V(z.mant)) && (forall k in 0..len(z.mant) :: z.mant[k] == old(z.mant[k]))
 //@   hint[ret] old(z.form) == finite && 19*len(z.mant) > z.prec && z.prec >= old(z.prec) ==> mod_p10_down(z.mant[0], 19*len(z.mant) - old(z.prec), 19*len(z.mant) - z.prec)
 
 // ---------------------------------------------------------------------------
@@ -946,6 +947,15 @@ package decimal
 //@        z.mode == (old(buf[1])/32) % 8 && z.acc == (old(buf[1])/8) % 4 - 1 && z.form == (old(buf[1])/2) % 4 && (z.neg <==> old(buf[1]) % 2 == 1) &&
 //@        z.prec == ((old(buf[2])*256 + old(buf[3]))*256 + old(buf[4]))*256 + old(buf[5]) &&
 //@        (z.form == finite ==> (z.exp >= 0 ? z.exp : z.exp + 4294967296) == ((old(buf[6])*256 + old(buf[7]))*256 + old(buf[8]))*256 + old(buf[9]))
+//@   ghost gM, gL, gE
+//@   ensures[rounded,C17,C02] result == nil && len(buf) != 0 && old(z.prec) != 0 && (old(buf[1])/2) % 4 == finite &&
+//@        old(z.prec) < ((old(buf[2])*256 + old(buf[3]))*256 + old(buf[4]))*256 + old(buf[5]) ==> rounded(z, gM, gL, gE, false)
+//@   ensures[kept,C17,C02] result == nil && len(buf) != 0 && old(z.prec) != 0 && (old(buf[1])/2) % 4 == finite &&
+//@        old(z.prec) >= ((old(buf[2])*256 + old(buf[3]))*256 + old(buf[4]))*256 + old(buf[5]) ==> z.form == finite && V(z.mant) == gM && len(z.mant) == gL && z.exp == gE
+//@   ensures[attrs2,C17] result == nil && len(buf) != 0 && old(z.prec) != 0 ==> (z.neg <==> old(buf[1]) % 2 == 1) && ((old(buf[1])/2) % 4 != finite ==> z.form == (old(buf[1])/2) % 4)
+//@   hint[after:set#1] bind(gM, V(result))
+//@   hint[after:set#1] bind(gL, len(result))
+//@   hint[after:set#1] bind(gE, exp)
 //@   ensures[empty,C17] len(buf) == 0 ==> result == nil && z.prec == 0 && z.mode == 0 && z.acc == 0 && z.form == zero && z.neg == false
 //@   loop 1 invariant[range] 0 - 1 <= rangeindex && rangeindex < len(mant)
 //@   loop 1 invariant[words] forall k in 0..rangeindex+1 :: 0 <= mant[k] && mant[k] < B
